@@ -473,7 +473,7 @@ func c04DebugLogging(r *core.Run) {
 		o = enumOpts{BaseBound: 2, MutateBound: 1}
 	}
 	var n int64
-	enumerateInputs(r, o, func(worker int, in *Input) {
+	visit := func(worker int, in *Input) {
 		if in.Class != "base" && in.Class != "cut" {
 			return
 		}
@@ -488,6 +488,10 @@ func c04DebugLogging(r *core.Run) {
 				}
 			}
 		}
-	})
+	}
+	enumerateInputs(r, o, visit)
+	// identities: every pair of variations (key-type pair x certificate form x fills) - the dimension code gated
+	// on the log level most often branches on
+	enumerateInputs(r, enumOpts{BaseBound: o.BaseBound + 1, MutateBound: -1, Families: []string{"KeysAndCert"}}, visit)
 	r.Note("debug_logging_pass_parses", n)
 }
